@@ -16,6 +16,7 @@ from __future__ import annotations
 import itertools
 import os
 import random
+import re
 import shutil
 import tempfile
 from collections import Counter
@@ -34,7 +35,7 @@ ANCHORS = ["decaylanguage.modeling.decay:ModelDecay.list_structure", "decaylangu
 WORKERS = {"quick": 8, "thorough": 16}
 WATCHDOG = {"quick": 900, "thorough": 3300}
 WTESTS = {"groups": ['list_structure'], "tests": ['tests/test_goofit.py', 'tests/test_convert.py']}
-REQUIRED = {"enum:all-shapes-and-patterns": 1, "enum:permutations>=4": 100, "enum:leaf-not-in-event-raises": 10,
+REQUIRED = {"direct-call:as-read": 10, "direct-call:reversed-in-place": 5, "direct-call:two-swapped-in-place": 5, "C18.direct_call_permutations_match_event_type_at_the_call": 30, "enum:all-shapes-and-patterns": 1, "enum:permutations>=4": 100, "enum:leaf-not-in-event-raises": 10,
             **{f"structure:{f}{w}": 2 for f, w in A.STRUCTURES}, **{f"lineshape:{k}": 4 for k in A.LS_KINDS}, "topology:two-resonances": 4, "topology:cascade": 4,
             "language:cpp": 10, "language:python": 10, "event:4-permutations": 2, "event:0": 2, "event:1": 2, "event:2": 2, "event:4": 2, "event:rearranged": 2, "event:particle-three-times(6-permutations)": 2, "event:identical-particles-not-adjacent": 2, "same-amplitudes-other-event-order-same-process": 2, "expanded-by-name": 2, "partial-line-referred-to-from>=2-places": 1, "two-body-vertex-written-in-reverse-order": 2,
             "C18.list_structure.equals_bruteforce": 1000}
@@ -215,8 +216,61 @@ def check_file(ctx, model, style_seed, workload="gen"):
             continue
         ctx.mon("C18.emitted_amplitudes_match_oracle")
         compare(ctx, model, m, oracles, {**wit, "output_tail": out[-1500:]}, lang)
+    if ctx.rng.random() < 0.35:
+        direct_calls(ctx, model, text, groups, known_spinfactors, style_seed)
     if len(ctx.samples) < 2:
         ctx.sample({"text": text, "amplitudes": [{"name": o["name"], "structure": o["key"], "permutations": o["perms"]} for o in flat]})
+
+
+_SF = re.compile(r"SpinFactor\(\s*\"[^\"]*\"\s*,\s*[\w:.]+\s*,\s*(\d+)\s*,\s*(\d+)\s*,\s*(\d+)\s*,\s*(\d+)\s*\)")
+
+
+def direct_calls(ctx, model, text, groups, known_spinfactors, style_seed):
+    """The per-amplitude entry point asked directly: `line.to_goofit(final_states)` for the event type, then again after the
+    caller rearranged that very list in place: each answer carries the assignments for the event type as it is at the time of the call."""
+    from decaylanguage.modeling.goofit import GooFitChain, GooFitPyChain  # noqa: PLC0415
+
+    trees = [t for _, ts in groups for t in ts]
+    for cls, lang in ((GooFitChain, "cpp"), (GooFitPyChain, "python")):
+        wit = {"kind": "direct", "model": A.model_to_json(model), "style_seed": style_seed, "language": lang, "text": text}
+        ok, res = ctx.guard("read:" + lang, wit, lambda cls=cls: cls.read_ampgen(text=text))
+        if not ok:
+            continue
+        lines, states = res
+        if len(lines) != len(trees):
+            continue            # the count is C17's business and is judged on the whole-file route above
+        k = ctx.rng.randrange(len(lines))
+        line, tree = lines[k], trees[k]
+        final = states[1:]
+        now = list(model["event"][1:])
+        steps = ["as-read"] + ctx.rng.sample(["reversed-in-place", "two-swapped-in-place", "rotated-in-place"], 2)
+        for step in steps:
+            if step == "reversed-in-place":
+                final.reverse()
+                now.reverse()
+            elif step == "two-swapped-in-place":
+                i, j = ctx.rng.sample(range(4), 2)
+                final[i], final[j] = final[j], final[i]
+                now[i], now[j] = now[j], now[i]
+            elif step == "rotated-in-place":
+                final.append(final.pop(0))
+                now.append(now.pop(0))
+            w = {**wit, "amplitude_index": k, "event_type_at_the_call": list(now), "step": step}
+            ctx.case({"text": text, "lang": lang, "k": k, "ev": tuple(now)}, True, "direct")
+            ok, code = ctx.guard("to_goofit:" + lang, w, line.to_goofit, final)
+            contracts.drain()
+            if not ok:
+                break
+            got = {tuple(int(x) for x in m) for m in _SF.findall(code)}
+            if not got:
+                ctx.hit("direct-call:spin-factors-not-recognised-in-the-fragment(not judged)")
+                break
+            want = set(A.amplitude_oracle(tree, [model["event"][0], *now], known_spinfactors)["perms"])
+            ctx.hit("direct-call:" + step)
+            ctx.mon("C18.direct_call_permutations_match_event_type_at_the_call")
+            if got != want:
+                ctx.violate(f"direct-call:permutations-not-those-of-the-event-type-at-the-call:{lang}", f"{A.tree_str(tree)} for [{' '.join(now)}] ({step}): spin factors carry {sorted(got)}, one-to-one assignments are {sorted(want)}", w)
+                break
 
 
 def compare(ctx, model, m, oracles, wit, lang):
@@ -327,6 +381,12 @@ def replay(ctx, w):
     A.install_memo()
     if w["kind"] == "file":
         check_file(ctx, A.model_from_json(w["model"]), w["style_seed"], "replay")
+    elif w["kind"] == "direct":
+        from decaylanguage.modeling.goofit import known_spinfactors  # noqa: PLC0415
+
+        model = A.model_from_json(w["model"])
+        for _ in range(20):     # the rearrangements are drawn at random: several rounds
+            direct_calls(ctx, model, w["text"], A.expand_trees(model), known_spinfactors, w["style_seed"])
     else:
         from decaylanguage.modeling.decay import ModelDecay  # noqa: PLC0415
         from particle import Particle  # noqa: PLC0415
